@@ -7,6 +7,8 @@ names) must raise at construction or during a one-step run; silent acceptance is
 controllers: one instance per class, ascending control order, user parameters override defaults.
 """
 
+import copy
+
 import numpy as np
 from hypothesis import strategies as st
 
@@ -50,15 +52,15 @@ def build(case):
     pk = case['problem']
     if pk == 'dahlquist':
         pc = testequation0d
-        pp = {'lambdas': np.array([-1.0, -2.0]), 'u0': case['pp']['u0']}
+        pp = {'lambdas': np.array([-1.0, -2.0]), 'u0': copy.deepcopy(case['pp']['u0'])}
         st_cls, st_par = nocoarse, {}
     else:
         pc = heatNd_unforced
-        pp = {'nvars': case['pp']['nvars'], 'nu': case['pp']['nu'], 'freq': 2, 'bc': 'dirichlet-zero'}
+        pp = {'nvars': copy.deepcopy(case['pp']['nvars']), 'nu': copy.deepcopy(case['pp']['nu']), 'freq': 2, 'bc': 'dirichlet-zero'}
         st_cls, st_par = mesh_to_mesh, {'rorder': 2, 'iorder': 2}
     desc = {
         'problem_class': pc, 'problem_params': pp, 'sweeper_class': generic_implicit,
-        'sweeper_params': dict(case['sp']), 'level_params': dict(case['lp']), 'step_params': {'maxiter': 2},
+        'sweeper_params': copy.deepcopy(case['sp']), 'level_params': copy.deepcopy(case['lp']), 'step_params': {'maxiter': 2},
     }  # fmt: skip
     if case['nlevels'] > 1 or case.get('always_transfer'):
         desc['space_transfer_class'] = st_cls
@@ -102,6 +104,31 @@ def prop_valid(case, r):
                 exp = (exp,)
             r.check(np.all(got == exp), 'problem-param', f'level {j}: {k} = {got!r}, expected {exp!r} from {v!r}')
         r.check(L.params.dt_initial == pick(case['lp']['dt'], j), 'dt-initial', f'level {j}')
+    # the user's lists are not modified by building the hierarchy, so a description whose dictionaries are reused
+    # (with some lists shortened) is again interpreted from what the user wrote
+    for name, d in (('problem_params', case['pp']), ('sweeper_params', case['sp']), ('level_params', case['lp'])):
+        for k, v in d.items():
+            if isinstance(v, list):
+                got = desc[name][k]
+                r.check(isinstance(got, list) and len(got) == len(v) and all(np.all(a == b) for a, b in zip(got, v)), 'user-list-modified', f'{name}[{k!r}] was {v!r}, is {got!r} after Step(description)')
+    if nexp >= 2 and case['problem'] == 'dahlquist':
+        # reuse the same dictionaries: truncate every list that has nexp entries to nexp-1 (new value), keep the other objects
+        changed = False
+        for name in ('problem_params', 'sweeper_params', 'level_params'):
+            for k in list(desc[name].keys()):
+                v = desc[name][k]
+                if isinstance(v, list) and len(v) >= nexp and k in case[{'problem_params': 'pp', 'sweeper_params': 'sp', 'level_params': 'lp'}[name]]:
+                    desc[name][k] = list(v[: nexp - 1])
+                    changed = True
+        if changed:
+            written = [len(v) for name in ('pp', 'sp', 'lp') for v in case[name].values() if isinstance(v, list)]
+            exp2 = max([min(n, nexp - 1) for n in written] + [1])
+            if exp2 == 1:
+                desc.pop('space_transfer_class', None)
+                desc.pop('space_transfer_params', None)
+            desc.pop('base_transfer_class', None)
+            step2 = Step(desc)
+            r.check(len(step2.levels) == exp2, 'reused-description-levels', f'reused dictionaries with lists of at most {exp2} entries gave {len(step2.levels)} levels')
     # levels are distinct objects with their own problem and sweeper
     ids = {id(L.prob) for L in step.levels} | {id(L.sweep) for L in step.levels}
     r.check(len(ids) == 2 * len(step.levels), 'shared-level-objects', '')
